@@ -97,7 +97,7 @@ def props_pending(E, res):
 
 # ---- get_active_deal_or_process_timeout ----------------------------------------------------------------
 
-def run_timeout(E):
+def run_timeout(E, pending_known=True):
     rt, rtref = new_rt(E)
     ST, DPF, DSF = F()
     deal = mk_deal(E)
@@ -114,7 +114,10 @@ def run_timeout(E):
     pb.entries.append([('int', did), True, deal['v'], IntV(did, 'u64')])
     qb = BaseInfo()
     E.ctx.memo[('mapbase', 'map(st.%d)' % ST['pending_proposals'])] = qb
-    qb.entries.append([('cid', dcid.term), True, UNIT, dcid])
+    if pending_known:
+        qb.entries.append([('cid', dcid.term), True, UNIT, dcid])
+    # else: the pending set is arbitrary (the entry may be missing: an older deal with the same proposal cid retired it)
+    E.ctx.env['pending_known'] = pending_known
     E.ctx.env.update(dict(deal=deal, tb=tb, ep=ep, did=did, dcid=dcid))
     cell = Cell(tb['st'], 'st')
     fn = find_fn(E, MARKET, 'get_active_deal_or_process_timeout')
@@ -132,7 +135,22 @@ def props_timeout(E, res):
     ST, DPF, DSF = F()
     deal, tb, ep, did = env['deal'], env['tb'], env['ep'], env['did']
     if is_err(res.value):
-        return [('clean-up of a well-formed unactivated proposal never fails', False)]
+        if env.get('pending_known', True):
+            return [('clean-up of a well-formed unactivated proposal never fails', False)]
+        # settle_deal_payments tolerates a failure per deal and keeps the state: a failing clean-up must be all or nothing
+        # with respect to what could be repeated or stranded: funds released <=> proposal deleted
+        st1 = env['st1']
+        pm = heap_get(E, fget(E, st1, ST['proposals'], CID))
+        gone = isinstance(pm, MapM) and final_lookup(E, pm, ('int', did))[0] is False
+        ec0, lc0 = tb['bal']['client']
+        lc1, _ = table_balance(E, st1, 'locked_table', deal['client'], tb['lbase'])
+        fee_ = deal['price'] * (deal['end'] - deal['start'])
+        due = deal['cc'] + fee_ + (deal['pc'] if tb['same'] else 0)
+        if gone:
+            f = lc1 == lc0 - due       # proposal deleted: its funds must have been released (nothing stranded)
+        else:
+            f = lc1 == lc0             # proposal kept: nothing may have been released (the release could be repeated)
+        return [('a failing time-out clean-up never releases the deal\'s funds while keeping the proposal (the release could be repeated), nor deletes the proposal while keeping the funds locked', f)]
     lds = res.value.fields[('Ok', 0)]
     st1 = env['st1']
     sb, sv = base_lookup(E, 'map(st.%d)' % ST['states'], ('int', did))
@@ -330,6 +348,9 @@ def build(tier):
         Obligation('market.generate_storage_deal_id x2', run_gen_id, props_gen_id, descr='ids strictly increasing, next_id advances', bounds='two calls', max_paths=200, expect_ok=False),
         Obligation('market.pending proposals set (has/put/remove)', run_pending, props_pending,
                    descr='a published proposal cid is pending until removed; other cids unaffected', bounds='one put / remove on an arbitrary set', max_paths=2000, expect_ok=False),
+        Obligation('market.get_active_deal_or_process_timeout[pending entry possibly missing]', lambda E: run_timeout(E, False), props_timeout,
+                   descr='with an arbitrary pending set (an older deal with the same proposal cid may have retired the entry): a failing clean-up is all-or-nothing w.r.t. funds released / proposal deleted; a succeeding one as below',
+                   bounds='one proposal; client = / != provider; pending set symbolic', max_paths=60000, expect_ok=False),
         Obligation('market.get_active_deal_or_process_timeout', run_timeout, props_timeout,
                    descr='unactivated proposal: too early before start (no change); at/after start removed with pending entry, provider collateral burnt, client fully unlocked',
                    bounds='one proposal; client = / != provider', max_paths=60000, expect_ok=False),
